@@ -1,5 +1,7 @@
 """C10 (kerning / anchor half) — a variable font reproduces each master's kerning and anchors at that master."""
-from pyvc.api import BOOL, CLASSES, CONTRACTS, INT, REAL, STR, Const, Dict, List, Loop, Map, Named, Opt, Ref, Runtime, Set, Tuple, Union, cls, contract, lemma, specfn, trusted
+from pyvc.api import SPECFNS, BOOL, CLASSES, CONTRACTS, INT, REAL, STR, Const, Dict, List, Loop, Map, Named, Opt, Ref, Runtime, Set, Tuple, Union, cls, contract, lemma, specfn, trusted
+
+import z3 as _z3
 
 from . import c05  # noqa: F401  (quantize is under contract there, props C05 + C10)
 
@@ -390,10 +392,16 @@ def _layers_getitem(ex, st, self, key, node):
     return ex.getitem(ex.read_field(st, self, "byname"), key, st, node)
 
 
+def _proxy(o, cname):
+    from pyvc.rt import Proxy
+
+    return Proxy(o, CLASSES[cname])
+
+
 cls("Anchor", fields={"name": STR, "x": REAL, "y": REAL}, notes="UFO anchor: name, x, y")
 cls("AGlyph", fields={"anchors": List(Ref("Anchor"))}, notes="UFO glyph, as _getAnchor reads it: its list of anchors")
 cls("LayerSet", fields={"byname": Dict(STR, Ref("GlyphLayer"))}, getitem=_layers_getitem,
-    views={"byname": lambda o: {l.name: l for l in o}},
+    views={"byname": lambda o: {l.name: _proxy(l, "GlyphLayer") for l in o}},
     notes="font.layers: layer name -> layer")
 cls("GlyphLayer", fields={"glyphs": Dict(STR, Ref("AGlyph")), "layers": Ref("LayerSet")}, contains=_layer_contains, getitem=_layer_getitem,
     views={"glyphs": lambda o: {n: o[n] for n in o.keys()}},
@@ -499,6 +507,124 @@ def k10_round(x):
     from fontTools.misc.roundTools import otRound
 
     return otRound(x)
+
+
+# =====================================================================================================
+# featureCompiler._featuresCompatible: decides between variable features and per-master layout merged by varLib
+#
+# `re.sub` is the trusted library: a pure function of (pattern, replacement, string); the two substitutions of the code
+# (strip comments, squeeze white space) are the opaque functions k10_strip_comments / k10_squeeze_ws.
+
+
+# The results of the substitutions are only compared with each other and tested for emptiness, so they are kept as abstract
+# tokens (class NText) rather than strings: a list of strings is a sequence of sequences in SMT, and on exactly this
+# function z3 4.8 / 5.1 answer `unsat` for a satisfiable obligation with nested sequences (notes/C10.requests.md, item 11;
+# the `always` canary caught it).
+
+cls("NText", truth=lambda ex, st, v: _z3.Not(ex.spec_decl(SPECFNS["k10_text_empty"])(v.term)),
+    notes="a feature text after a substitution (abstract token: equal tokens = equal strings; truthiness = non-empty)")
+
+
+@specfn(Ref("NText"), opaque=True, t=STR)
+def k10_strip_comments(t):
+    import re
+
+    return re.sub("(?m)#.*$", "", t)
+
+
+@specfn(Ref("NText"), opaque=True, t=Ref("NText"))
+def k10_squeeze_ws(t):
+    import re
+
+    return re.sub(r"\s+", " ", t)
+
+
+@specfn(BOOL, opaque=True, t=Ref("NText"))
+def k10_text_empty(t):
+    return t == ""
+
+
+@trusted("re.sub", "re.sub(pattern, repl, string) is a pure function of its arguments (modelled for the two constant (pattern, repl) pairs of _featuresCompatible; the resulting strings are abstract tokens)")
+def _re_sub(ex, st, args, kwargs, node):
+    from pyvc.core import Unsupported
+    from pyvc.ops import is_const
+
+    pat, repl, text = args
+    if not (is_const(pat) and is_const(repl)) or kwargs:
+        raise Unsupported("re.sub with a computed pattern / flags", node)
+    name = {("(?m)#.*$", ""): "k10_strip_comments", (r"\s+", " "): "k10_squeeze_ws"}.get((pat.py, repl.py))
+    if name is None:
+        raise Unsupported(f"re.sub({pat.py!r}, {repl.py!r}, ..): no model", node)
+    return ex.apply_spec(SPECFNS[name], [text], st, node)
+
+
+cls("FCFeatures", fields={"text": Opt(STR)}, notes="font.features: the feature file text (None when absent)")
+cls("FCFont", fields={"features": Ref("FCFeatures")}, notes="a source UFO, as _featuresCompatible reads it")
+cls("FCSource", fields={"font": Ref("FCFont")}, notes="designspaceLib SourceDescriptor with its opened font")
+cls("FCDoc", fields={"sources": List(Ref("FCSource")), "default": Ref("FCSource")}, isa=("DesignSpaceDocument",),
+    notes="designspaceLib DesignSpaceDocument: sources, and the default source found by findDefault()")
+
+_NORM = "k10_squeeze_ws(k10_strip_comments({s}.font.features.text or ''))"
+_SRC = "designSpaceDoc.sources"
+contract(
+    "ufo2ft.featureCompiler:_featuresCompatible",
+    props=["C10"],
+    params={"designSpaceDoc": Ref("FCDoc")},
+    returns=BOOL,
+    # the interpolable sub-documents handed over by compile_variable come from designspaceLib.split, which sets .default
+    # to one of the document's own sources (findDefault)
+    requires=[f"any({_SRC}[a] == designSpaceDoc.default for a in range(len({_SRC})))"],
+    sorted_axioms=True,
+    ensures={
+        # (deductive part: the function raises nothing - in particular sorted(..)[0] is the default source, the two
+        # assertions hold, no index error; the two decision clauses are below, bounded)
+        "returns-bool": "result or not result",
+    },
+    # run-time only (bounded): the solvers do not get through the composition sorted-permutation / slice / membership within
+    # minutes, although every fact is there (z3's sequence theory; see notes/C10.md)
+    bounded_ensures={
+        # identical features everywhere (the normal case of a family built from one feature file) are recognised
+        "if-same": f"implies(all({_NORM.format(s='s')} == {_NORM.format(s='designSpaceDoc.default')} for s in set({_SRC})), result)",
+        # True only if every source has the default source's feature text modulo comments and white space, or no source
+        # other than the default has any
+        "only-if": f"implies(result, all({_NORM.format(s='s')} == {_NORM.format(s='designSpaceDoc.default')} for s in set({_SRC})) or all(s == designSpaceDoc.default or k10_text_empty({_NORM.format(s='s')}) for s in set({_SRC})))",
+    },
+    canaries={"always": "result", "inconsistent": "False"},
+)
+
+
+def _fc_cases(rng, n):
+    texts = [None, "", "# only a comment\n", "feature liga { sub A V by T; } liga;", "feature liga {\n  sub A V by T; # c\n} liga;\n",
+             "feature liga { sub A o by T; } liga;", "  \n"]
+    out = []
+    for k in range(n):
+        m = rng.randint(1, 4)
+        if k % 3 == 0:
+            t = rng.choice(texts)
+            ts = [t] * m
+        elif k % 3 == 1:
+            ts = [rng.choice(texts)] + [rng.choice([None, "", "  \n", "# c\n"]) for _ in range(m - 1)]
+        else:
+            ts = [rng.choice(texts) for _ in range(m)]
+        out.append({"texts": ts, "default": rng.randrange(m)})
+    return out
+
+
+def _fc_build(d):
+    from types import SimpleNamespace
+
+    from fontTools.designspaceLib import DesignSpaceDocument, SourceDescriptor
+
+    ds = DesignSpaceDocument()
+    for t in d["texts"]:
+        sd = SourceDescriptor()
+        sd.font = SimpleNamespace(features=SimpleNamespace(text=t))
+        ds.addSource(sd)
+    ds.default = ds.sources[d["default"]]
+    return {"designSpaceDoc": ds}
+
+
+CONTRACTS["ufo2ft.featureCompiler:_featuresCompatible"].runtime = Runtime(_fc_cases, _fc_build)
 
 
 # ---- replay entry of the end-to-end observer (vcheck/hooks/c10.py) ------------------------------------------
